@@ -136,6 +136,24 @@ def _sugar(ck, fx):
                     why = "a[i]%s compiles to CallMethod %s with arity %s; expected \"%s\"/%d — objects can then override it" % (
                         " <- v" if variant == "AssignArray" else "", fmt_term(s), fmt_term(n), name, arity)
                 ck.ob("R14.sugar", "%s|keep=%s" % (variant, "T" if keep else "F"), ok, "", why)
+    # a method call (and therefore every operator) is always compiled to the call: no path of the CallMethod arm may
+    # leave the instruction out, whatever the name or the arguments are (no algebraic "simplification": `x + 0` on an
+    # object that overrides `+`, or on null, must still dispatch)
+    for keep in (True, False):
+        ex, paths, err = T.get(("CallMethod", keep), (None, [], "missing"))
+        oks = [p for p in paths if is_ok_result(p)]
+        bad = None
+        for p in oks:
+            ops = [it.op for it in all_items(stream(p["eff"])) if it.kind == "emit" and it.op[0] == "ctor" and it.op[2] == "CallMethod"]
+            if len(ops) != 1:
+                bad = "%d CallMethod instruction(s) on one of %d path(s)" % (len(ops), len(oks))
+                break
+            f = dict(ops[0][3])
+            if not V.mentions(f["name"], ("var", "self.name")):
+                bad = "the called name is not the node's own name"
+                break
+        ck.ob("R14.sugar", "CallMethod|keep=%s|always a call" % ("T" if keep else "F"), bool(oks) and bad is None, "",
+              "every path emits exactly one CallMethod of the node's name (%d path(s))" % len(oks) if bad is None and oks else (bad or "no template"))
     # operators: AST::operation(op, l, r) = CallMethod{object: l, name: spelling(op), arguments: [r]}
     from ..compile_scheme import run_function
     try:
@@ -221,16 +239,22 @@ def _arity(ck, fx):
     # primitive built-ins: decided through the dispatch entry with 0, 1 and 2 arguments (any internal structure)
     from . import c09
     prim_done = set()
-    for tname, what, probe in (("null", "null built-ins", "=="), ("integer", "integer built-ins", "+"), ("boolean", "boolean built-ins", "&")):
+    for tname, what, probes in (("null", "null built-ins", ("==", "!=", "eq", "neq")), ("integer", "integer built-ins", ("+", "==", "!=", "<", "eq", "neq", "/")),
+                                ("boolean", "boolean built-ins", ("&", "==", "!=", "|", "eq", "neq"))):
         try:
-            res = {}
-            for n_args in (0, 1, 2):
-                paths = c09.arity_paths(fx, tname, probe, n_args)
-                succ = [p for p in paths if p["out"][0] == "val" and isinstance(p["out"][1], tuple) and p["out"][1][0] == "ok"]
-                res[n_args] = (len(succ), len(paths))
-            ok = res[0][0] == 0 and res[2][0] == 0 and res[1][0] > 0 and res[0][1] > 0 and res[2][1] > 0
-            ck.ob("R14.arity", what, ok, "", "`%s` through the dispatch entry: successful paths with 0 / 1 / 2 arguments = %d / %d / %d (only exactly one argument may succeed)" % (
-                probe, res[0][0], res[1][0], res[2][0]))
+            worst = None
+            for probe in probes:
+                res = {}
+                for n_args in (0, 1, 2, 3):
+                    paths = c09.arity_paths(fx, tname, probe, n_args)
+                    succ = [p for p in paths if p["out"][0] == "val" and isinstance(p["out"][1], tuple) and p["out"][1][0] == "ok"]
+                    res[n_args] = (len(succ), len(paths))
+                ok_p = res[0][0] == 0 and res[2][0] == 0 and res[3][0] == 0 and res[1][0] > 0 and res[0][1] > 0 and res[2][1] > 0
+                if worst is None or (not ok_p and worst[0]):
+                    worst = (ok_p, probe, res)
+            ok, probe, res = worst
+            ck.ob("R14.arity", what, ok, "", "%d method name(s) probed through the dispatch entry; `%s`: successful paths with 0 / 1 / 2 / 3 arguments = %d / %d / %d / %d (only exactly one argument may succeed)" % (
+                len(probes), probe, res[0][0], res[1][0], res[2][0], res[3][0]))
             prim_done.add(what)
         except Exception as e:  # noqa — fall back to the handler-level rule below
             pass
